@@ -14,10 +14,14 @@ import (
 	"compress/gzip"
 	"encoding/binary"
 	"encoding/hex"
+	"bufio"
 	"fmt"
+	"hash/fnv"
 	"io"
 	"math"
+	"sort"
 	"strings"
+	"testing/iotest"
 
 	"github.com/EliCDavis/polyform/formats/ply"
 	"github.com/EliCDavis/polyform/formats/splat"
@@ -250,6 +254,7 @@ func c15emitRead(c *Ctx, data []byte) {
 }
 
 func runC15(c *Ctx) {
+	c.runC15large()
 	c.runC15spz()
 	c.Emit("c15.const.shc0", "", F(splat.SH_C0))
 
@@ -432,6 +437,7 @@ func runC15(c *Ctx) {
 			c.Note("c15.read.partial-tail")
 		}
 		c15emitRead(c, data)
+		c.c15readersAgree("c15.holds.readers_agree", "splat.small", data, c15splatDecode)
 	}
 }
 
@@ -621,6 +627,9 @@ func (c *Ctx) runC15spz() {
 			hexes[i] = hex.EncodeToString(r.bytes())
 		}
 		c.Emit("c15.holds.spz_dequant", strings.TrimSpace(fmt.Sprintf("%d %d %d %d %s %s", version, n, deg, fb, strings.Join(hexes, " "), ans)), "true")
+		if k%4 == 0 {
+			c.c15readersAgree("c15.holds.readers_agree", "spz.small", c15gzip(stream), c15spzDecode)
+		}
 
 		// rejected / odd streams
 		switch k % 6 {
@@ -658,5 +667,212 @@ func (c *Ctx) runC15spz() {
 			c.Note("c15.spz.reserved-nonzero")
 			c.Emit("c15.spz.read", c15hex(rs), c15spzRead(rs))
 		}
+	}
+}
+
+
+// ---- reader family: a decoder must compute the same result whatever chunking the io.Reader delivers ---------------
+
+type c15chunkReader struct {
+	data  []byte
+	sizes []int
+	i     int
+}
+
+// returns exactly sizes[i] bytes per call (less only at the end of the data / for a smaller p)
+func (r *c15chunkReader) Read(p []byte) (int, error) {
+	if len(r.data) == 0 {
+		return 0, io.EOF
+	}
+	n := r.sizes[r.i%len(r.sizes)]
+	r.i++
+	if n > len(p) {
+		n = len(p)
+	}
+	if n > len(r.data) {
+		n = len(r.data)
+	}
+	copy(p, r.data[:n])
+	r.data = r.data[n:]
+	return n, nil
+}
+
+var c15irregular = []int{1, 7, 31, 32, 33, 50, 100, 333, 4096, 4100, 16384, 16385}
+
+type c15namedReader struct {
+	name string
+	mk   func([]byte) io.Reader
+}
+
+func c15pipe(data []byte, sizes []int) io.Reader {
+	pr, pw := io.Pipe()
+	go func() {
+		i := 0
+		for len(data) > 0 {
+			n := sizes[i%len(sizes)]
+			i++
+			if n > len(data) {
+				n = len(data)
+			}
+			if _, err := pw.Write(data[:n]); err != nil {
+				return // reader gone
+			}
+			data = data[n:]
+		}
+		pw.Close()
+	}()
+	return pr
+}
+
+func c15readerFamily(seedShift int) []c15namedReader {
+	rot := func(k int) []int {
+		k = (k + seedShift) % len(c15irregular)
+		return append(append([]int{}, c15irregular[k:]...), c15irregular[:k]...)
+	}
+	fam := []c15namedReader{
+		{"bytes", func(b []byte) io.Reader { return bytes.NewReader(b) }},
+		{"buffer", func(b []byte) io.Reader { return bytes.NewBuffer(append([]byte{}, b...)) }},
+		{"bufio16", func(b []byte) io.Reader { return bufio.NewReaderSize(bytes.NewReader(b), 16) }},
+		{"bufio37", func(b []byte) io.Reader { return bufio.NewReaderSize(bytes.NewReader(b), 37) }},
+		{"bufio4096", func(b []byte) io.Reader { return bufio.NewReaderSize(bytes.NewReader(b), 4096) }},
+		{"onebyte", func(b []byte) io.Reader { return iotest.OneByteReader(bytes.NewReader(b)) }},
+		{"half", func(b []byte) io.Reader { return iotest.HalfReader(bytes.NewReader(b)) }},
+		{"dataerr", func(b []byte) io.Reader { return iotest.DataErrReader(bytes.NewReader(b)) }},
+		{"chunk-irregular", func(b []byte) io.Reader { return &c15chunkReader{data: b, sizes: rot(0)} }},
+		{"chunk-irregular2", func(b []byte) io.Reader { return &c15chunkReader{data: b, sizes: rot(5)} }},
+		{"pipe-irregular", func(b []byte) io.Reader { return c15pipe(b, rot(3)) }},
+	}
+	for _, n := range []int{7, 33, 50, 100, 333, 4100, 16385} {
+		n := n
+		fam = append(fam, c15namedReader{fmt.Sprintf("chunk%d", n), func(b []byte) io.Reader { return &c15chunkReader{data: b, sizes: []int{n}} }})
+	}
+	fam = append(fam, c15namedReader{"pipe50", func(b []byte) io.Reader { return c15pipe(b, []int{50}) }})
+	return fam
+}
+
+// every attribute (sorted by kind and name) with every value, and the index buffer
+func c15meshDump(m modeling.Mesh) string {
+	var sb strings.Builder
+	n := m.AttributeLength()
+	names := m.Float1Attributes()
+	sort.Strings(names)
+	for _, a := range names {
+		d := m.Float1Attribute(a)
+		fmt.Fprintf(&sb, "f1.%s", a)
+		for i := 0; i < n; i++ {
+			sb.WriteString(" " + c15FC(d.At(i)))
+		}
+		sb.WriteString(";")
+	}
+	names = m.Float3Attributes()
+	sort.Strings(names)
+	for _, a := range names {
+		d := m.Float3Attribute(a)
+		fmt.Fprintf(&sb, "f3.%s", a)
+		for i := 0; i < n; i++ {
+			sb.WriteString(" " + c15FCs(d.At(i).X(), d.At(i).Y(), d.At(i).Z()))
+		}
+		sb.WriteString(";")
+	}
+	names = m.Float4Attributes()
+	sort.Strings(names)
+	for _, a := range names {
+		d := m.Float4Attribute(a)
+		fmt.Fprintf(&sb, "f4.%s", a)
+		for i := 0; i < n; i++ {
+			sb.WriteString(" " + c15FCs(d.At(i).X(), d.At(i).Y(), d.At(i).Z(), d.At(i).W()))
+		}
+		sb.WriteString(";")
+	}
+	return sb.String()
+}
+
+func c15digest(s string) string {
+	h := fnv.New64a()
+	h.Write([]byte(s))
+	return fmt.Sprintf("%016x", h.Sum64())
+}
+
+// readersAgree runs decode through every reader of the family and emits the oracle line
+func (c *Ctx) c15readersAgree(op, tag string, data []byte, decode func(io.Reader) string) {
+	parts := []string{}
+	for _, nr := range c15readerFamily(c.Rng.Intn(12)) {
+		nr := nr
+		d := Guard(func() string {
+			r := nr.mk(data)
+			out := decode(r)
+			if pr, ok := r.(*io.PipeReader); ok {
+				pr.Close() // release the writer goroutine if the decoder stopped early
+			}
+			return c15digest(out)
+		})
+		parts = append(parts, nr.name, d)
+	}
+	c.Emit(op, tag+" "+strings.Join(parts, " "), "true")
+}
+
+func c15splatDecode(r io.Reader) string {
+	m, err := splat.Read(r)
+	flag := "0"
+	if err != nil {
+		flag = "1:" + err.Error()
+	}
+	back := c15readBack(m)
+	return flag + " " + c15flatAll(back, false)
+}
+
+func c15spzDecode(r io.Reader) string {
+	cl, err := spz.Read(r)
+	if err != nil {
+		return "err"
+	}
+	return fmt.Sprintf("%d %s", cl.Header.NumPoints, c15meshDump(cl.Mesh))
+}
+
+// large inputs across the decoders' internal buffer boundaries (a handful in quick, all in thorough)
+func (c *Ctx) runC15large() {
+	// .splat: 32 KiB = 1024 records
+	splatSizes := []int{1025, 2049}
+	if c.Tier == "thorough" {
+		splatSizes = []int{1023, 1024, 1025, 2047, 2049, 3000}
+	}
+	for _, n := range splatSizes {
+		data := c.c15rnd(32 * n)
+		if c.Rng.Intn(2) == 0 {
+			data = append(data, c.c15rnd(1+c.Rng.Intn(31))...)
+		}
+		c.Note(fmt.Sprintf("c15.large.splat.%d", n))
+		c15emitRead(c, data)
+		c.c15readersAgree("c15.holds.readers_agree", fmt.Sprintf("splat.%d", n), data, c15splatDecode)
+	}
+	// SPZ: per-point SH stride 9/24/45 bytes against power-of-two scratch buffers: 16384/9 = 1820.4, /24 = 682.7, /45 = 364.1
+	type lc struct {
+		n   int
+		deg uint8
+	}
+	cases := []lc{{364, 3}, {683, 2}, {1821, 1}, {4001, 3}}
+	if c.Tier == "thorough" {
+		cases = []lc{{363, 3}, {364, 3}, {365, 3}, {681, 2}, {682, 2}, {683, 2}, {1819, 1}, {1820, 1}, {1821, 1},
+			{729, 3}, {1366, 2}, {3641, 1}, {4001, 1}, {4001, 2}, {4001, 3}}
+	}
+	for i, lcse := range cases {
+		version := uint32(1 + (i+int(c.Rng.Int31n(2)))%2)
+		recs := make([]c15packed, lcse.n)
+		for j := range recs {
+			recs[j] = c.c15spzRecord(version, lcse.deg)
+		}
+		fb := uint8(c.Rng.Intn(25))
+		stream := c15spzEncode(0x5053474e, version, uint32(lcse.n), lcse.deg, fb, 0, 0, recs)
+		c.Note(fmt.Sprintf("c15.large.spz.v%d.sh%d.%d", version, lcse.deg, lcse.n))
+		ans := c15spzRead(stream)
+		if lcse.n <= 2000 {
+			c.Emit("c15.spz.read", c15hex(stream), ans) // the List-based model decoder is quadratic: mid sizes only
+		}
+		hexes := make([]string, lcse.n)
+		for j, r := range recs {
+			hexes[j] = hex.EncodeToString(r.bytes())
+		}
+		c.Emit("c15.holds.spz_dequant", strings.TrimSpace(fmt.Sprintf("%d %d %d %d %s %s", version, lcse.n, lcse.deg, fb, strings.Join(hexes, " "), ans)), "true")
+		c.c15readersAgree("c15.holds.readers_agree", fmt.Sprintf("spz.%d.sh%d", lcse.n, lcse.deg), c15gzip(stream), c15spzDecode)
 	}
 }
